@@ -1,5 +1,7 @@
+import Lean.Data.Json
 import NGF.Model.Store
 import NGF.Model.StoreHandler
+import NGF.Model.StorePipelineTie
 import NGF.Model.StoreJudge
 import NGF.Model.Footprint
 import NGF.Model.Proto
@@ -175,6 +177,245 @@ def watchSvcLine (line : String) : String :=
   | some o, some n => if watchSvc o n then "1" else "0"
   | _, _ => "bad-op"
 
+
+/-! ### pipeline mode: in-fragment HISTORIES replayed in the instantiated store machine (`Model/StorePipelineTie.replay`)
+  line   : JSON `{front:[ns,name], states:[<pipeE view>…], steps:[{t:"ev"|"cut"|"restart",…}…]}` (harness/c01/pipeline.go)
+  output : JSON `{inFragment, why, events, verdicts, irrelevant, cuts, confs, rebuilds, diffs:[…], echo:[…], errors:[…]}` -/
+end NGF.Store
+
+namespace NGF.C01Flat
+open Lean (Json)
+open NGF.Spec.GatewayAPI
+
+def optField (j : Json) (k : String) : Option Json :=
+  match j.getObjVal? k with
+  | .ok v => if v.isNull then none else some v
+  | .error _ => none
+def reqStr (j : Json) (k : String) : Except String String := do (← j.getObjVal? k).getStr?
+def reqNat (j : Json) (k : String) : Except String Nat := do (← j.getObjVal? k).getNat?
+def reqBool (j : Json) (k : String) : Except String Bool := do (← j.getObjVal? k).getBool?
+def reqArr (j : Json) (k : String) : Except String (List Json) := do
+  match j.getObjVal? k with
+  | .ok v => if v.isNull then pure [] else return (← v.getArr?).toList
+  | .error _ => pure []
+def reqInt (j : Json) (k : String) : Except String Int := do (← j.getObjVal? k).getInt?
+def optBool (j : Json) (k : String) : Bool := match j.getObjVal? k with | .ok (.bool b) => b | _ => false
+def optStr (j : Json) (k : String) : String := match j.getObjVal? k with | .ok (.str x) => x | _ => ""
+
+/- C02's flat scenario (harness/c02/flat.go): same decoding as Driver/C02, C06, C13 -/
+def strMap (j : Json) (k : String) : Except String (List (String × String)) := do
+  match j.getObjVal? k with
+  | .ok (.obj m) => m.toList.mapM fun (a, b) => do pure (a, ← b.getStr?)
+  | _ => pure []
+
+def strs (j : Json) (k : String) : Except String (List String) := do (← reqArr j k).mapM (·.getStr?)
+
+def dKV (j : Json) : Except String KV := do pure ⟨← reqStr j "type", ← reqStr j "name", ← reqStr j "value"⟩
+def dHeader (j : Json) : Except String Header := do pure ⟨← reqStr j "name", ← reqStr j "value"⟩
+
+def dMatch (j : Json) : Except String Match := do
+  pure { ptype := ← reqStr j "ptype", pvalue := ← reqStr j "pvalue", method := ← reqStr j "method",
+         headers := ← (← reqArr j "headers").mapM dKV, query := ← (← reqArr j "query").mapM dKV,
+         hasGm := ← reqBool j "hasGm", gmType := ← reqStr j "gmType", hasService := ← reqBool j "hasService",
+         service := ← reqStr j "service", hasGMethod := ← reqBool j "hasGMethod", gmethod := ← reqStr j "gmethod" }
+
+def dFilter (j : Json) : Except String Filter := do
+  pure { type := ← reqStr j "type", present := ← reqBool j "present", scheme := ← reqStr j "scheme", hostname := ← reqStr j "hostname",
+         hasPort := ← reqBool j "hasPort", port := ← reqNat j "port", code := ← reqNat j "code", pathType := ← reqStr j "pathType",
+         pathValue := ← reqStr j "pathValue", set := ← (← reqArr j "set").mapM dHeader, add := ← (← reqArr j "add").mapM dHeader,
+         remove := ← strs j "remove" }
+
+def dBackend (j : Json) : Except String Backend := do
+  pure { group := ← reqStr j "group", kind := ← reqStr j "kind", hasNs := ← reqBool j "hasNs", ns := ← reqStr j "ns", name := ← reqStr j "name",
+         hasPort := ← reqBool j "hasPort", port := (← reqInt j "port").toNat, weight := ← reqInt j "weight", nfilters := ← reqNat j "nfilters" }
+
+def dRule (j : Json) : Except String Rule := do
+  pure { matches_ := ← (← reqArr j "matches").mapM dMatch, filters := ← (← reqArr j "filters").mapM dFilter,
+         backends := ← (← reqArr j "backends").mapM dBackend }
+
+def dParent (j : Json) : Except String ParentRef := do
+  pure { group := ← reqStr j "group", kind := ← reqStr j "kind", hasNs := ← reqBool j "hasNs", ns := ← reqStr j "ns", name := ← reqStr j "name",
+         hasSection := ← reqBool j "hasSection", sectionName := ← reqStr j "section", hasPort := ← reqBool j "hasPort" }
+
+def dRoute (j : Json) : Except String Route := do
+  pure { kind := ← reqStr j "kind", ns := ← reqStr j "ns", name := ← reqStr j "name", age := ← reqInt j "age",
+         parents := ← (← reqArr j "parents").mapM dParent, hostnames := ← strs j "hostnames", rules := ← (← reqArr j "rules").mapM dRule }
+
+def dListener (j : Json) : Except String Listener := do
+  pure { name := ← reqStr j "name", port := (← reqInt j "port").toNat, proto := ← reqStr j "proto", hasHost := ← reqBool j "hasHost",
+         host := ← reqStr j "host", hasTls := ← reqBool j "hasTls", tlsMode := ← reqStr j "tlsMode", tlsOpts := ← reqNat j "tlsOpts",
+         certs := ← (← reqArr j "certs").mapM (fun c => do
+           pure ({ group := ← reqStr c "group", kind := ← reqStr c "kind", hasNs := ← reqBool c "hasNs", ns := ← reqStr c "ns", name := ← reqStr c "name" } : CertRef)),
+         nsFrom := ← reqStr j "from", hasSel := ← reqBool j "hasSel", selMatch := ← strMap j "selMatch", selExprs := ← reqNat j "selExprs",
+         hasKinds := ← reqBool j "hasKinds",
+         kinds := ← (← reqArr j "kinds").mapM (fun c => do pure (⟨← reqStr c "group", ← reqStr c "kind"⟩ : KindRef)) }
+
+/-- C02's flat scenario (harness/c02/flat.go), same decoding as Driver/C02 and Driver/C06 -/
+def dScenario (j : Json) : Except String Scenario := do
+  pure { cls := ← reqStr j "class", ctlr := ← reqStr j "ctlr",
+         protectedPorts := ← (← reqArr j "protected").mapM (·.getNat?),
+         gcs := ← (← reqArr j "gcs").mapM (fun c => do pure (⟨← reqStr c "name", ← reqStr c "ctlr", ← reqInt c "age", ← reqBool c "params"⟩ : GatewayClass)),
+         gws := ← (← reqArr j "gws").mapM (fun g => do
+           pure ({ ns := ← reqStr g "ns", name := ← reqStr g "name", cls := ← reqStr g "class", age := ← reqInt g "age",
+                   addresses := ← reqNat g "addresses", listeners := ← (← reqArr g "listeners").mapM dListener } : Gateway)),
+         nss := ← (← reqArr j "nss").mapM (fun n => do pure (⟨← reqStr n "name", ← strMap n "labels"⟩ : Namespace)),
+         routes := ← (← reqArr j "routes").mapM dRoute,
+         svcs := ← (← reqArr j "svcs").mapM (fun v => do
+           pure ({ ns := ← reqStr v "ns", name := ← reqStr v "name",
+                   ports := ← (← reqArr v "ports").mapM (fun p => do pure (⟨(← reqInt p "port").toNat, ← reqBool p "ready"⟩ : SvcPort)) } : Svc)),
+         grants := ← (← reqArr j "grants").mapM (fun g => do
+           pure ({ ns := ← reqStr g "ns",
+                   «from» := ← (← reqArr g "from").mapM (fun f => do pure (⟨← reqStr f "group", ← reqStr f "kind", ← reqStr f "ns"⟩ : GrantFrom)),
+                   to := ← (← reqArr g "to").mapM (fun t => do pure (⟨← reqStr t "group", ← reqStr t "kind", ← reqBool t "hasName", ← reqStr t "name"⟩ : GrantTo)) } : Grant)),
+         secrets := ← (← reqArr j "secrets").mapM (fun x => do pure (⟨← reqStr x "ns", ← reqStr x "name", ← reqBool x "ok"⟩ : Secret)) }
+
+
+
+open NGF.Resolver (Slice TargetPort EndpointPort Endpoint AddrType)
+
+def optStrF (j : Json) (k : String) : Except String (Option String) :=
+  match optField j k with
+  | none => pure none
+  | some v => do pure (some (← v.getStr?))
+
+def parseWrittenRef (j : Json) : Except String NGF.RefGrant.BackendRef := do
+  let port ← match optField j "port" with | none => pure none | some v => do pure (some (← v.getNat?))
+  let weight ← match optField j "weight" with | none => pure none | some v => do pure (some (← v.getInt?))
+  return { group := ← optStrF j "group", kind := ← optStrF j "kind", ns := ← optStrF j "ns", name := ← reqStr j "name",
+           port := port, weight := weight, nfilters := ← reqNat j "nfilters" }
+
+def parseWrittenObjs (inp : Json) : Except String NGF.RefGrant.Objs := do
+  let routes ← (← reqArr inp "routes").mapM fun r => do
+    let rules ← (← reqArr r "rules").mapM fun ru => do
+      return ({ paths := [], refs := ← (← reqArr ru "refs").mapM parseWrittenRef } : NGF.RefGrant.RRule)
+    return ({ kind := .http, ns := ← reqStr r "ns", name := ← reqStr r "name", rules := rules } : NGF.RefGrant.Route)
+  let grants ← (← reqArr inp "grants").mapM fun g => do
+    let froms ← (← reqArr g "from").mapM fun f => do
+      return ({ group := ← reqStr f "group", kind := ← reqStr f "kind", ns := ← reqStr f "ns" } : NGF.RefGrant.GrantFrom)
+    let tos ← (← reqArr g "to").mapM fun t => do
+      return ({ group := ← reqStr t "group", kind := ← reqStr t "kind", name := ← optStrF t "name" } : NGF.RefGrant.GrantTo)
+    return ({ ns := ← reqStr g "ns", name := ← reqStr g "name", froms := froms, tos := tos } : NGF.RefGrant.Grant)
+  return { grants := grants, routes := routes, gateways := [], secrets := [] }
+
+def parseAddrType (s : String) : AddrType :=
+  if s = "IPv4" then .ipv4 else if s = "IPv6" then .ipv6 else if s = "FQDN" then .fqdn else .other
+
+def parsePort (j : Json) : Except String EndpointPort := do
+  let name ← match optField j "name" with | none => pure none | some v => do pure (some (← v.getStr?))
+  let port ← match optField j "port" with | none => pure none | some v => do pure (some (← v.getNat?))
+  return ⟨name, port⟩
+
+def parseEndpoint (j : Json) : Except String Endpoint := do
+  let addrs ← (← reqArr j "addrs").mapM (·.getStr?)
+  let ready ← match optField j "ready" with | none => pure none | some v => do pure (some (← v.getBool?))
+  return ⟨addrs, ready⟩
+
+def parseSliceObj (j : Json) : Except String NGF.StorePipeline.SliceObj := do
+  let label ← match optField j "label" with | none => pure none | some v => do pure (some (← v.getStr?))
+  return { name := ← reqStr j "obj",
+           slice := { ns := ← reqStr j "ns", svcLabel := label, addrType := parseAddrType (← reqStr j "type"),
+                      ports := ← (← reqArr j "ports").mapM parsePort, endpoints := ← (← reqArr j "eps").mapM parseEndpoint } }
+
+def parseSvcPort (j : Json) : Except String NGF.Resolver.SvcPort := do
+  let tp ← match optField j "tps", optField j "tpi" with
+    | some v, _ => do pure (TargetPort.str (← v.getStr?))
+    | none, some v => do pure (TargetPort.int (← v.getNat?))
+    | none, none => pure (TargetPort.int 0)
+  return ⟨← reqStr j "name", ← reqNat j "port", tp⟩
+
+/-- one cluster state → the cluster of the store model, or why it is outside the fragment -/
+def parseState (inp : Json) : Except String (Except String NGF.StorePipeline.PCl) := do
+  let flat ← dScenario (← inp.getObjVal? "flat")
+  let objs ← parseWrittenObjs inp
+  let ports ← (← reqArr inp "ports").mapM fun p => do
+    return (⟨← reqStr p "ns", ← reqStr p "name", ← parseSvcPort (← p.getObjVal? "sp")⟩ : NGF.PipelineEndpoints.PortInfo)
+  let slices ← (← reqArr inp "slices").mapM parseSliceObj
+  return match NGF.PipelineRefsTie.toScenarioR flat objs with
+    | .ok base => .ok (NGF.StorePipelineTie.toPCl base ports slices)
+    | .error e => .error e
+
+def dNjsMatch (j : Json) : Option NGF.NginxEval.Njs.Match :=
+  match j with
+  | .obj _ =>
+    let any := match j.getObjVal? "any" with | .ok (.bool b) => b | _ => false
+    let lst (k : String) : List (List Char) := match j.getObjVal? k with
+      | .ok (.arr a) => a.toList.filterMap fun x => match x with | .str y => some y.toList | _ => none
+      | _ => []
+    some { any := any, method := (optStr j "method").toList, headers := lst "headers", params := lst "params",
+           redirectPath := (optStr j "redirectPath").toList }
+  | _ => none
+
+def dMatches (text : String) : Except String (List (String × Option (List NGF.NginxEval.Njs.Match))) := do
+  if text == "" then return []
+  match ← Json.parse text with
+  | .obj m => pure (m.toList.map fun (k, v) =>
+      match v with
+      | .arr a => (k, (a.toList.mapM dNjsMatch))
+      | _ => (k, none))
+  | _ => throw "matches.json is not an object"
+
+def parseNginx (text : String) : Except String (List NGF.Nginx.Dir) :=
+  match NGF.Nginx.parseString text with
+  | .ok ds => pure ds
+  | .error e => throw s!"nginx parse error {repr e}"
+
+open NGF.StorePipelineTie in
+def parseStep (j : Json) : Except String (Option TStep) := do
+  let t ← reqStr j "t"
+  if t == "restart" then return some (.restart (← reqNat j "state"))
+  if t == "ev" then
+    match parseKind (← reqStr j "kind") with
+    | none => return none
+    | some k =>
+      return some (.ev { kind := k, key := (optStr j "ns", optStr j "name"), del := optBool j "del", state := ← reqNat j "state",
+                         fwd := optBool j "fwd", changed := optBool j "changed" })
+  if t == "cut" then
+    let hasFiles := optBool j "hasFiles"
+    let real : Except String NGF.Pipeline.Conf :=
+      if !hasFiles then .error "no files" else do
+        let cfg : NGF.NginxEval.Config :=
+          { http := ← parseNginx (optStr j "http"), stream := ← parseNginx (optStr j "stream"), matchTab := ← dMatches (optStr j "matches") }
+        NGF.PipelineTie.abstractConf cfg
+    let ups ← (← reqArr j "upstreams").mapM fun u => do
+      pure (← reqStr u "name", sortS (← (← reqArr u "servers").mapM (·.getStr?)))
+    let refs ← (← reqArr j "refsvcs").mapM (·.getStr?)
+    return some (.cut { hasFiles := hasFiles, real := real, ups := ups.mergeSort (fun a b => a.1 ≤ b.1), refsvcs := sortS refs,
+                        ct := (← reqInt j "ct").toNat })
+  throw s!"unknown step {t}"
+
+def strsJson (l : List String) : Json := Json.arr (l.map Json.str).toArray
+
+open NGF.StorePipelineTie in
+def pipelineLine (line : String) : String :=
+  match Json.parse line with
+  | .error _ => "bad-op"
+  | .ok j =>
+    let r : Except String Json := do
+      let front ← match ← reqArr j "front" with
+        | [a, b] => do pure ((← a.getStr?), (← b.getStr?))
+        | _ => throw "front"
+      let states ← (← reqArr j "states").mapM parseState
+      match states.find? (fun s => match s with | .error _ => true | .ok _ => false) with
+      | some (.error why) => return Json.mkObj [("inFragment", false), ("why", why)]
+      | _ =>
+        let sts : List NGF.StorePipeline.PCl := states.filterMap fun s => match s with | .ok c => some c | .error _ => none
+        let steps := (← (← reqArr j "steps").mapM parseStep).filterMap id
+        match sts with
+        | [] => throw "no states"
+        | c0 :: _ =>
+          let rep := replay front sts.toArray (NGF.Store.start (NGF.StorePipeline.pBuild true) c0) 0 true steps {}
+          return Json.mkObj [("inFragment", true), ("why", ""), ("events", rep.events), ("verdicts", rep.verdicts),
+            ("irrelevant", rep.irrelevant), ("cuts", rep.cuts), ("confs", rep.confs), ("rebuilds", rep.rebuilds),
+            ("diffs", strsJson rep.diffs), ("echo", strsJson rep.echo), ("errors", strsJson rep.errors)]
+    match r with
+    | .ok out => out.compress
+    | .error e => s!"bad-op {e}"
+
+end NGF.C01Flat
+
+namespace NGF.Store
+open NGF.Proto
+
 def driver (args : List String) : IO UInt32 := do
   let stdin ← IO.getStdin
   let stdout ← IO.getStdout
@@ -183,7 +424,8 @@ def driver (args : List String) : IO UInt32 := do
   | ["judge"] => forEachLine stdin fun l => stdout.putStrLn (judgeLine l)
   | ["footprint"] => forEachLine stdin fun l => stdout.putStrLn (footprintLine l)
   | ["watchsvc"] => forEachLine stdin fun l => stdout.putStrLn (watchSvcLine l)
-  | _ => IO.eprintln "usage: C01 model|judge|footprint|watchsvc"; return 2
+  | ["pipeline"] => forEachLine stdin fun l => stdout.putStrLn (NGF.C01Flat.pipelineLine l)
+  | _ => IO.eprintln "usage: C01 model|judge|footprint|watchsvc|pipeline"; return 2
   return 0
 
 end NGF.Store
